@@ -106,12 +106,14 @@ static void make_gt(tsnpd_net *g, char letter, int ports, int nfreq,
 /* ---- respelling dimensions ----------------------------------------- */
 
 enum { D_UNIT, D_ENC, D_MATFMT, D_ORDER, D_CASE, D_COMMENTS, D_BLANK,
-    D_SPACE, D_LINEBREAK, D_OPTION, D_NOISE, D_REF, D_KWORDER, TS_NDIM };
+    D_SPACE, D_LINEBREAK, D_OPTION, D_NOISE, D_REF, D_KWORDER, D_KWBLOCK,
+    TS_NDIM };
 static const int ts_dimsize[TS_NDIM] = { 4, 3, 4, 2, 4, 4, 3, 3, 4, 384, 2,
-    3, 3 };
+    3, 3, 4 * 2 * 3 * 2 * 3 };
 static const char *ts_dimname[TS_NDIM] = { "unit", "encoding", "matrix-format",
     "two-port-order", "letter-case", "comments", "blank-lines", "spacing",
-    "line-breaks", "option-line", "noise-block", "reference", "keyword-order" };
+    "line-breaks", "option-line", "noise-block", "reference", "keyword-order",
+    "keyword-block" };
 
 static void ts_apply(tsnpd_spell *s, int dim, int v)
 {
@@ -129,6 +131,15 @@ static void ts_apply(tsnpd_spell *s, int dim, int v)
     case D_NOISE: s->noise = v; break;
     case D_REF: s->refstyle = v; break;
     case D_KWORDER: s->kworder = v; break;
+    case D_KWBLOCK:
+	/* the keywords between [Number of Ports] and [Network Data] keep
+	   state for one another: their full cross product */
+	s->matfmt = v % 4; v /= 4;
+	s->order = v % 2; v /= 2;
+	s->kworder = v % 3; v /= 3;
+	s->noise = v % 2; v /= 2;
+	s->refstyle = v % 3;
+	break;
     default: break;
     }
 }
@@ -199,8 +210,8 @@ static void build(int tier)
 	    add_case(tier, &c);
 	}
 	if (tier && ts_tp[tp].ports <= 3 && nf <= 2) {
-	    for (int a = 0; a < TS_NDIM; ++a)
-		for (int b = a + 1; b < TS_NDIM; ++b) {
+	    for (int a = 0; a < D_KWBLOCK; ++a)
+		for (int b = a + 1; b < D_KWBLOCK; ++b) {
 		    c.dima = (short)a;
 		    c.dimb = (short)b;
 		    add_case(tier, &c);
